@@ -145,6 +145,20 @@ def generate(seed, tier):
                            "pre_cmode": [bn, True], "post_cmode": [bn, False]})
             at = orng.randint(2 * n_parties, len(ops))
             ops[at:at] = ep
+    if has_dyn:
+        # episode: the same inline block - a reference to the dynamic block followed by the
+        # opposite of one of its softs - several times in a row on one object; the later
+        # (inline) soft must win every time, not only the first
+        dsoft = [s_["e"] for b in prog["classes"][0]["blocks"] if b.get("dyn")
+                 for s_ in b["stmts"] if s_["t"] == "soft"]
+        if dsoft and orng.random() < 0.8:
+            se = orng.choice(dsoft)
+            p = orng.randrange(n_parties)
+            ep = [{"op": "rw", "p": p, "inline": [progs.EXPR({"t": "dynref", "n": "dz", "p": []}),
+                                                   {"t": "soft", "e": {"t": "not", "e": se}}]}
+                  for _ in range(orng.randint(3, 5))]
+            at = orng.randint(2 * n_parties, len(ops))
+            ops[at:at] = ep
     return {"prop": ID, "seed": seed, "prog": prog, "ops": ops}
 
 
